@@ -567,6 +567,9 @@ def iirfilter(fs, N, Wn, rp, rs, btype, ftype, target):
     # transient.
     zi = signal.lfilter_zi(b, a)
     y = (yield)
+    while y.shape[-1] == 0:
+        # Need at least one sample to scale the initial state
+        y = (yield)
     zo = zi * y[..., :1]
 
     while True:
